@@ -3,11 +3,14 @@ package checks
 import (
 	"bytes"
 	"fmt"
+	"github.com/256dpi/lungo"
+	"go.mongodb.org/mongo-driver/mongo/options"
 	"math"
 	"sort"
 	"strings"
 	"sync"
 	"sync/atomic"
+	"verif/internal/world"
 
 	"go.mongodb.org/mongo-driver/bson"
 	"go.mongodb.org/mongo-driver/bson/primitive"
@@ -344,6 +347,8 @@ func init() {
 			{"$push", "a", int32(9), nil}, {"$push", "n", int32(9), nil}, {"$pop", "a", int32(1), nil}, {"$pull", "a", int32(1), nil}, {"$addToSet", "a", int32(1), nil}, {"$addToSet", "n", int32(1), nil},
 			{"$rename", "a", "r", nil}, {"$rename", "q", "a", nil}, {"$rename", "n", "m", nil}, {"$rename", "a.b", "a.z", nil}, {"$bit", "q", bD("and", int32(3)), nil}, {"$set", "a.$[].x", int32(0), nil}, {"$currentDate", "n", true, nil},
 			{"$set", "a.b.c", int32(3), nil}, {"$unset", "a.0", "", nil},
+			// positional expansion meeting an explicit element path of the same array
+			{"$inc", "a.$[].x", int32(1), nil}, {"$set", "a.0.x", int32(5), nil}, {"$set", "a.1.x", int32(6), nil}, {"$unset", "a.$[]", "", nil}, {"$mul", "a.$[]", int32(2), nil}, {"$set", "a.1", int32(7), nil},
 		}
 		r.Set("pair_core", int64(len(core)))
 		par.For(len(core), r.TooMany, func(i int) {
@@ -364,6 +369,81 @@ func init() {
 				}
 			}
 		})
+		// two identifiers whose filters select the same element and write the same field: a conflict that only exists after expansion
+		for _, d := range docs {
+			for _, x := range []struct {
+				upd     bson.D
+				filters []bson.D
+			}{
+				{bD("$set", bD("a.$[i].x", int32(1), "a.$[j].x", int32(2))), []bson.D{bD("i.x", bD("$gte", int32(1))), bD("j.x", bD("$gte", int32(2)))}},
+				{bD("$set", bD("a.$[i].x", int32(1)), "$inc", bD("a.$[j].x", int32(2))), []bson.D{bD("i.y", int32(2)), bD("j.x", int32(2))}},
+				{bD("$set", bD("a.$[i]", int32(1)), "$unset", bD("a.$[j]", "")), []bson.D{bD("i", bD("$gte", int32(2))), bD("j", bD("$lte", int32(2)))}},
+				{bD("$set", bD("a.$[i].x", int32(1), "a.$[j].y", int32(2))), []bson.D{bD("i.x", bD("$gte", int32(1))), bD("j.x", bD("$gte", int32(2)))}},
+			} {
+				checkOne(d, x.upd, x.filters, "identifier-overlap", "identifiers", "a.$[i]+a.$[j]", nil)
+			}
+		}
+		// through the collection: the stored document after UpdateOne is the document Apply produces, ModifiedCount is 1
+		// exactly when its bytes changed (a change of the numeric type alone is a change), and exactly then one update event is logged
+		var collChecks, typeOnly int64
+		par.For(len(docs), r.TooMany, func(di int) {
+			doc := append(bson.D{{Key: "_id", Value: int32(1)}}, docs[di]...)
+			for _, u := range cases {
+				upd := u.update()
+				want, _, err, pan := c11Lungo(doc, upd, u.filters, false)
+				if err != nil || pan != nil {
+					continue
+				}
+				w := world.New()
+				coll := w.C("d", "c")
+				if _, ierr := coll.InsertOne(w.Ctx, doc); ierr != nil {
+					w.Close()
+					continue
+				}
+				opt := options.Update()
+				if len(u.filters) > 0 {
+					var fs []interface{}
+					for _, f := range u.filters {
+						fs = append(fs, f)
+					}
+					opt.SetArrayFilters(options.ArrayFilters{Filters: fs})
+				}
+				evBefore := len(w.Engine.Catalog().Namespaces[lungo.Oplog].Documents.List)
+				res, uerr := coll.UpdateOne(w.Ctx, bD("_id", int32(1)), upd, opt)
+				atomic.AddInt64(&collChecks, 1)
+				atomic.AddInt64(&evals, 1)
+				rep := bson.M{"doc": J(doc), "update": J(upd), "arrayFilters": J(u.filters), "part": "collection"}
+				cls := fmt.Sprintf("%s:%s:%s", u.op, c11ArgShape(u.arg), c11DocShape(docs[di], u.path))
+				if uerr != nil {
+					if !(u.path == "_id" || strings.HasPrefix(u.path, "_id.")) {
+						r.Violation("collection:update-fails:"+cls, fmt.Sprintf("UpdateOne(%s) on %s failed (%v) although Apply accepts it", J(upd), J(doc), uerr), rep)
+					}
+					w.Close()
+					continue
+				}
+				var stored bson.D
+				_ = coll.FindOne(w.Ctx, bD("_id", int32(1))).Decode(&stored)
+				changed := !bytes.Equal(rawBytes(want), rawBytes(doc))
+				if changed && refmodel.Cmp(want, doc) == 0 {
+					atomic.AddInt64(&typeOnly, 1)
+				}
+				hasDate := u.op == "$currentDate"
+				if !hasDate && !bytes.Equal(rawBytes(stored), rawBytes(want)) {
+					r.Violation("collection:stored-differs:"+cls, fmt.Sprintf("UpdateOne(%s) on %s stored %s, Apply produces %s", J(upd), J(doc), J(stored), J(want)), rep)
+				}
+				evAfter := len(w.Engine.Catalog().Namespaces[lungo.Oplog].Documents.List)
+				wantMod := int64(0)
+				if changed {
+					wantMod = 1
+				}
+				if !hasDate && (res.ModifiedCount != wantMod || int64(evAfter-evBefore) != wantMod || res.MatchedCount != 1) {
+					r.Violation("collection:modified-count:"+cls, fmt.Sprintf("UpdateOne(%s) on %s: matched=%d modified=%d events=%d, the document %s", J(upd), J(doc), res.MatchedCount, res.ModifiedCount, evAfter-evBefore, map[bool]string{true: "changed to " + J(want), false: "did not change"}[changed]), rep)
+				}
+				w.Close()
+			}
+		})
+		r.Set("collection_level_updates", collChecks)
+		r.Set("collection_level_type_only_changes", typeOnly)
 		r.Sample(bson.M{"doc": J(docs[17]), "update": J(cases[900].update())})
 		r.Sample(bson.M{"doc": J(docs[20]), "update": J(cases[4000].update()), "arrayFilters": J(cases[4000].filters)})
 		r.Set("evaluations", evals)
